@@ -100,6 +100,11 @@ func RunC04(tier string) int {
 	}
 	defer st.Cleanup()
 	e1.RestoreFaultPart(run, st, tierN(tier, 16, 80), tierN(tier, 16, 0), map[string]bool{"crash": true, "hang": true}, tier == "thorough")
+	// cache entries that turn unreadable while they are being read: a read-side system call on a
+	// cache file (open for reading, read, pread64, stat, the read half of copy_file_range) fails
+	// with EIO / EACCES / EMFILE in the real binary (strace fault injection, hook-free)
+	e1.SysFaultPart(run, st, tierN(tier, 8, 50), tierN(tier, 8, 30), map[string]bool{"read": true},
+		map[string]bool{"crash": true, "hang": true}, false)
 	e1.InterruptWidePart(run, st, tierN(tier, 24, 300))
 	// whole builds under the race detector
 	RaceBuildPart(run, st, tierN(tier, 10, 120))
